@@ -223,9 +223,16 @@ def scen_compare(env, cfg):
         mk = lambda nm: [env.int(f'{nm}[{i}]', -4, 4) for i in range(n)]      # integer-dtype container, real thresholds
     else:
         mk = lambda nm: env.reals(nm, n, -4, 4)
-    s = mk('s')
-    nz = mk('w') if noise else None
-    x = ES(list(s), list(nz) if noise else None)
+    if dt in ('uint8', 'int16'):
+        # raw integer records kept in a narrow dtype (the container preserves it): values whose squares do not fit the dtype
+        lo, hi = (0, 255) if dt == 'uint8' else (-300, 300)
+        s = [env.int(f's[{i}]', lo, hi) for i in range(n)]
+        nz = None
+        x = ES(env.arr(list(s), dtype=dt))
+    else:
+        s = mk('s')
+        nz = mk('w') if noise else None
+        x = ES(list(s), list(nz) if noise else None)
     if tk == 'scalar':
         t = [env.real('t', -4, 4)]
         thr = t[0]
@@ -246,7 +253,7 @@ def scen_compare(env, cfg):
     for v, z, th in zip(env.items(r.data), tot, tl):
         conds.append(env.Iff(v == 1, cmpf(env.abs2(z), th * th)))
     env.check('result equals |signal+noise| compared with |threshold| element-wise', env.And(conds))
-    if dt in ('real', 'int'):
+    if dt in ('real', 'int', 'uint8', 'int16'):
         nonneg = env.And([z >= 0 for z in tot] + [th >= 0 for th in tl])
         conds = [env.Iff(v == 1, cmpf(z, th)) for v, z, th in zip(env.items(r.data), tot, tl)]
         env.check('for non-negative signal+noise and threshold it is the plain comparison', env.Implies(nonneg, env.And(conds)))
@@ -313,5 +320,8 @@ def configs(tier):
         for tk in ('scalar', 'list'):
             for op in ('gt', 'lt'):
                 out.append((f'cmp-int-{"noise" if noise else "clean"}-{tk}-{op}', scen_compare, dict(n=2, dtype='int', noise=noise, thr=tk, op=op), {}))
+    for dt in ('uint8', 'int16'):
+        for op in ('gt', 'lt'):
+            out.append((f'cmp-{dt}-clean-scalar-{op}', scen_compare, dict(n=2, dtype=dt, noise=False, thr='scalar', op=op), {}))
     out.append(('cmp-length-mismatch', scen_compare_len, {}, {}))
     return out
